@@ -17,7 +17,11 @@ class SPEC:
             "retry / drop path) and a dump after every step; plus random mixes; plus a family of records that LACK correlate fields (the two nodes "
             "export with different templates; value token `~`): every rule-action field absent x every value of the other action, pod-name fields "
             "absent, every other field absent on the stored record / on the incoming one / on both with the other side's value empty or not, random "
-            "subsets, in both arrival orders, hand-built and through the exporter-collector path, with retries and drops. The correlation spec Ipfix.C07.checkShown (ready iff both sides "
+            "subsets, in both arrival orders, hand-built and through the exporter-collector path, with retries and drops; plus a family in which the "
+            "value of the IPv4 element destinationClusterIPv4 is handed over in the 16-byte form of net.IP (net.IPv4zero, net.ParseIP: what in-process "
+            "callers build elements with) on the first record, the second or both - empty (0.0.0.0) and non-empty, against 4-byte values, both arrival "
+            "orders, also through the exporter-collector path (which decodes the 4-byte form); every second history creates the process from the same "
+            "configuration with its lists in another order (`cfg<n>`). The correlation spec Ipfix.C07.checkShown (ready iff both sides "
             "seen or no correlation needed; never exported unready; every field non-empty on either side is non-empty in the merged record and "
             "comes from one of them; the merged record carries a field exactly when one of the two records does; filled flag) is evaluated on every exported and dumped record of the implementation. Non-trivial = records "
             "from both nodes or a retry.")
@@ -261,6 +265,51 @@ def absent_cases(rng, tier):
     return cases
 
 
+def ip16_cases(rng, tier):
+    """the value of the IPv4 correlate field destinationClusterIPv4 in the 16-byte form of net.IP (IPv4-mapped):
+    the same address as its 4-byte form - 0.0.0.0 is empty in either form; a dump shows the value object as it is"""
+    cases = []
+    z4, v4, w4 = "00000000", "0a600001", "0a600063"
+    forms = [("z4", z4), ("z16", AG.ip16(z4)), ("v4", v4), ("v16", AG.ip16(v4)), ("w16", AG.ip16(w4))]
+    for (na, ca), (nb, cb) in itertools.product(forms, repeat=2):
+        if "16" not in na + nb:
+            continue
+        for first_side in "SD":
+            other = "D" if first_side == "S" else "S"
+            for via_msg in (False, True):
+                for kind in ("inter", "inter-allow"):
+                    if kind == "inter-allow" and (via_msg or rng.random() < 0.5):
+                        continue
+                    xa = dict(src_ns="nsA", cluster=ca, svc_port=80)
+                    xb = dict(dst_ns="nsB", cluster=cb)
+                    ex = {first_side: xa, other: xb}
+                    recs = [record(kind, first_side, 1, 1, (ex["S"], ex["D"])), record(kind, other, 1, 2, (ex["S"], ex["D"])),
+                            record(kind, first_side, 1, 3, (ex["S"], ex["D"]))]
+                    scans = rng.choice([(), (), (0,), (1,)])
+                    cases.append(Case(session(recs, rng, scans_after=scans, via_msg=via_msg), "ip16" + ("-msg" if via_msg else ""), True, True))
+    # flows that need no correlation keep what their first record says, whatever its form; mixes over three keys
+    kinds = list(KINDS)
+    vals = [c for _, c in forms]
+    for _ in range(60 if tier == "quick" else 3000):
+        ops = ["agg new %d %d" % (A, I)]
+        kmap = {k: rng.choice(["inter", "inter", "inter-allow", rng.choice(kinds)]) for k in (1, 2, 3)}
+        cnt = 0
+        for _ in range(rng.randint(3, 30)):
+            r = rng.random()
+            if r < 0.65:
+                key, side = rng.choice([1, 2, 3]), rng.choice("SD")
+                cnt += 1
+                x = dict(cluster=rng.choice(vals), svc_port=rng.choice([0, 443]))
+                rec = record(kmap[key], side, key, cnt, (x, x))
+                ops += [AG.msg_op([rec]) if rng.random() < 0.2 else rec, "agg dump"]
+            elif r < 0.8:
+                ops += ["agg adv %d" % rng.choice([1, 50, A, I - A, I]), "agg dump"]
+            else:
+                ops += ["agg scan %s %d" % (rng.choice(["-", "-", "1", "2"]), rng.choice([0, 1])), "agg dump"]
+        cases.append(Case(ops, "ip16-random", True, True))
+    return cases
+
+
 def msg_cases(rng, tier):
     """the source-node and the destination-node record of a flow arrive in ONE data set, decoded by a collecting
     process (`agg msg`), in both orders; alone, with a record of another flow between / before them, with a third
@@ -317,6 +366,9 @@ def msg_cases(rng, tier):
 def run(ctx):
     rng = random.Random(ctx.seed * 1000003 + 7)
     cases = gen_cases(rng, ctx.tier)
+    # own stream of random numbers: the histories above are the ones the seed generated before
+    cases += ip16_cases(random.Random(ctx.seed * 1000003 + 707), ctx.tier)
+    AG.with_cfg(cases)
     res = run_simple(ctx, cases, "C07", chk_filter=lambda op: True, stateful_chk=True,
                      chk_variant=lambda op: "aggc" + op[3:],
                      signature=lambda c, oi, v, agrees: "C07:%s:%s" % (c.label, " ".join(v.split(" ")[:3])))
